@@ -195,6 +195,10 @@ def build_api (spec, early_loads = False, late_sources = False, plain_list = Fal
             return common.guarded (fn, 'api build')
         except ValueError as e:
             raise common.Rejected (str (e))
+        except common.Repo_Crash as e:
+            if isinstance (e.exc, ValueError):
+                raise common.Rejected (str (e.exc))      # the documented way of the library to refuse a model
+            raise
     geo = MM.Geo_Container ()
     whole = not any (t [3] is not None for t in spec.get ('tr') or []) and not any (s [1] is not None for s in spec.get ('sc') or [])
     if not whole or early_loads:
